@@ -27,9 +27,38 @@ def sh(cmd, cwd=None, env=None, timeout=7200):
     return r.returncode, (r.stdout + r.stderr)
 
 
+def tests_only(name):
+    """run the unedited test suite on HEAD + patch of an already filed seed and record the result"""
+    dst = VERIF / "seeded" / name
+    meta = json.loads((dst / "meta.json").read_text())
+    wt = Path(f"/tmp/seedverify/{name}-tests")
+    wt.parent.mkdir(exist_ok=True)
+    sh(f"git -C /repo worktree remove --force {wt}")
+    rc, out = sh(f"git -C /repo worktree add --detach {wt} HEAD")
+    assert rc == 0, out
+    try:
+        rc, out = sh(f"git apply {dst / 'patch.diff'}", cwd=wt)
+        assert rc == 0, out
+        t0 = time.time()
+        rc, out = sh("/venv/bin/python -m pytest -q -p no:cacheprovider -n 16 --timeout=900 2>&1 | tail -3", cwd=wt,
+                     env={"PYTHONPATH": str(wt)}, timeout=10800)
+        m = re.search(r"(\d+) passed[^\n]*", out)
+        summary = m.group(0) if m else out.strip()[-300:]
+        meta["confirmed"]["tests"] = {"command": "python -m pytest -q -p no:cacheprovider -n 16 --timeout=900 (PYTHONPATH=scratch worktree, HEAD + patch)",
+                                      "summary": summary, "seconds": round(time.time() - t0)}
+        meta["confirmed"]["tests_pass"] = bool(m) and " failed" not in summary and " error" not in summary
+    finally:
+        sh(f"git -C /repo worktree remove --force {wt}")
+        sh("git -C /repo worktree prune")
+    (dst / "meta.json").write_text(json.dumps(meta, indent=1, ensure_ascii=False))
+    print("SEED", name, "tests:", meta["confirmed"]["tests"]["summary"])
+
+
 def main():
     name, prop, src = sys.argv[1], sys.argv[2], Path(sys.argv[3])
     no_tests = "--no-tests" in sys.argv
+    if "--tests-only" in sys.argv:
+        return tests_only(name)
     checks = [prop]
     for a in sys.argv:
         if a.startswith("--checks"):
